@@ -17,7 +17,7 @@ PROPS = {
             'str::split / str::trim semantics are the uninterpreted comma_tokens (A-std-split-01)',
         ]),
     'C12': dict(
-        units=['reqresp'], level='proof',
+        units=['reqresp', 'status'], level='proof',
         not_covered=[
             'the Interceptor itself is an arbitrary relation (any function of the request); the inner service is seen through a ghost log of the requests it was called with (A-tower-01)',
             'ResponseBody::poll_frame (Empty => no frames, Wrap => inner frames) is not yet under contract',
@@ -47,11 +47,11 @@ PROPS = {
             'that compress() uses the coder named in grpc-encoding (FFI)', 'HTTP/2 serialisation of heads and trailers (hyper/h2)',
         ]),
     'C06': dict(
-        units=['encode', 'decode'], level='proof',
+        units=['encode', 'decode', 'compression'], level='proof',
         not_covered=['server/client plumbing of max_*_message_size from the configuration into Streaming / EncodeBody (straight-line glue, not yet under contract)'],
         ),
     'C07': dict(
-        units=['decode'], level='proof',
+        units=['decode', 'compression'], level='proof',
         not_covered=[
             '"every poll completes" is decided only as safety: each loop iteration of Streaming::poll_next either returns or polls the body exactly once; termination under a body that yields frames forever is liveness and not claimed',
             'compressed garbage: decompress() is behind contract A-compress-02 (flate2/zstd are FFI)',
